@@ -177,6 +177,7 @@ type errno =
 | EAGAIN
 | EINTR
 | EBADF
+| EINVAL
 
 type wresp =
 | WFull
@@ -249,10 +250,12 @@ type cresp =
 | COk
 | CFailOpen
 | CFailLock
+| CFailTrunc of errno
 
 type event =
 | EOpen of path * nat option
 | ELock of nat * bool
+| ETrunc of nat * bool
 | EWrite of nat option * nat * nat * nat option
 | EClose of nat option * bool
 | EEnvOpen of nat
@@ -427,8 +430,12 @@ let file_create o p =
       | CFailLock ->
         (((bump_fail (os_close (log o1 (ELock (fd, false))) (Some fd))),
           false), (Some fd))
+      | CFailTrunc _ ->
+        (((bump_fail
+            (os_close (log (log o1 (ELock (fd, true))) (ETrunc (fd, false)))
+              (Some fd))), false), (Some fd))
       | _ ->
-        let o2 = log o1 (ELock (fd, true)) in
+        let o2 = log (log o1 (ELock (fd, true))) (ETrunc (fd, true)) in
         (((set_fs o2 (upd o2.fs p (Some []))), true), (Some fd)))
    | None -> (((bump_fail o1), false), None))
 
@@ -482,6 +489,7 @@ let ledger_step own = function
    | Some fd -> if memb fd own then None else Some (fd :: own)
    | None -> Some own)
 | ELock (fd, _) -> if memb fd own then Some own else None
+| ETrunc (fd, _) -> if memb fd own then Some own else None
 | EWrite (fd0, _, _, _) ->
   (match fd0 with
    | Some fd -> if memb fd own then Some own else None
